@@ -115,6 +115,8 @@ struct Log {
     n_msgs: u64,
     extra_polls_after_schedule: usize,
     log_every_poll: bool,
+    sums: Vec<u32>, // state_sum after every iteration (silent tuning runs only; below 2^32)
+    lite: bool, // long runs: no whole-memory diff, periodic `snap` events so that the trace can be validated in shards
 }
 fn mix(h: u64, x: u64) -> u64 {
     (h ^ x).wrapping_mul(0x100000001b3).rotate_left(13)
@@ -191,10 +193,11 @@ impl Log {
         self.h_pcst = mix(mix(self.h_pcst, pc_before as u64), state as u64 ^ ((cpu.vh_pc() as u64) << 20));
         if self.w.is_none() {
             let _ = console_take();
+            self.sums.push(cpu.vh_state_sum() as u32);
             self.id += 1;
             return;
         }
-        let wr = self.shadow.as_mut().map(|s| s.diff(cpu)).unwrap_or_default();
+        let wr = if self.lite { Vec::new() } else { self.shadow.as_mut().map(|s| s.diff(cpu)).unwrap_or_default() };
         let (_dd, dr) = readbacks(cpu);
         let regs = regs_of(cpu);
         let con = console_take();
@@ -202,6 +205,11 @@ impl Log {
                            self.id, pc_before >> 16, pc_before & 0xffff, opcode, state, sum_pair(cpu.vh_state_sum()), j_u32s(&regs.vec19()), j_bytes(&cpu.vh_pending()),
                            j_msgs(&msgs), j_bytes(&con), j_pairs(&wr), j_bytes(&dr), cpu.bus.read(0xffff88).unwrap_or(0), cpu.bus.read(0xffff82).unwrap_or(0));
         self.emit(line);
+        if self.lite && self.iters % 4000 == 0 {
+            let line = format!("{{\"k\":\"snap\",\"id\":{},\"bg\":\"zero\",\"pre\":{},\"pk\":[],\"pend\":{},\"sum\":{},\"exit\":[{},{}]}}",
+                               self.id, j_u32s(&regs.vec19()), j_bytes(&cpu.vh_pending()), sum_pair(cpu.vh_state_sum()), self.exit_addr >> 16, self.exit_addr & 0xffff);
+            self.emit(line);
+        }
     }
 }
 fn hash_bytes(b: &[u8]) -> u64 {
@@ -213,6 +221,7 @@ fn hash_bytes(b: &[u8]) -> u64 {
 }
 
 pub struct RunSummary {
+    pub sums: Vec<u32>,
     pub res: &'static str,
     pub regs: Regs,
     pub sum: usize,
@@ -262,6 +271,10 @@ pub fn elf_of(p: &Program, rng: &mut Rng) -> Vec<u8> {
 
 /// Execute one program through elf::load + Cpu::run.  `log` = write events to this file.
 pub fn run_program(p: &Program, elf_path: &str, log: Option<&str>, schedule: Vec<Vec<String>>, max_iters: u64, extra_polls: usize, rng: &mut Rng, first_id: u64) -> Result<RunSummary> {
+    run_program_x(p, elf_path, log, schedule, max_iters, extra_polls, rng, first_id, false)
+}
+#[allow(clippy::too_many_arguments)]
+pub fn run_program_x(p: &Program, elf_path: &str, log: Option<&str>, schedule: Vec<Vec<String>>, max_iters: u64, extra_polls: usize, rng: &mut Rng, first_id: u64, lite: bool) -> Result<RunSummary> {
     *emu::setting::ENABLE_PRINT_OPCODE.write().unwrap() = false;
     *emu::setting::ENABLE_PRINT_MESSAGES.write().unwrap() = false;
     *emu::setting::ENABLE_WAIT_START.write().unwrap() = false;
@@ -279,7 +292,7 @@ pub fn run_program(p: &Program, elf_path: &str, log: Option<&str>, schedule: Vec
     };
     let lg = Rc::new(RefCell::new(Log {
         w, id: first_id, shadow: None, schedule, poll_no: 0, batch: Vec::new(), in_tx, iters: 0, max_iters, stop_sent: false, exit_addr: cpu.exit_addr,
-        h_pcst: 0, h_msgs: 0, n_msgs: 0, extra_polls_after_schedule: extra_polls, log_every_poll: false,
+        h_pcst: 0, h_msgs: 0, n_msgs: 0, extra_polls_after_schedule: extra_polls, log_every_poll: false, sums: Vec::new(), lite,
     }));
     let (l1, l2, l3) = (lg.clone(), lg.clone(), lg.clone());
     verif_hooks::set_on_poll(Some(Box::new(move |c: &mut Cpu| l1.borrow_mut().on_poll(c))));
@@ -312,7 +325,8 @@ pub fn run_program(p: &Program, elf_path: &str, log: Option<&str>, schedule: Vec
         w.flush()?;
     }
     cpu.vh_detach_socket();
-    Ok(RunSummary { res, regs, sum: cpu.vh_state_sum(), iters: l.iters, h_pcst: l.h_pcst, h_msgs: l.h_msgs, n_msgs: l.n_msgs, events: l.id })
+    let sums = std::mem::take(&mut l.sums);
+    Ok(RunSummary { sums, res, regs, sum: cpu.vh_state_sum(), iters: l.iters, h_pcst: l.h_pcst, h_msgs: l.h_msgs, n_msgs: l.n_msgs, events: l.id })
 }
 
 // ------------------------------------------------------------------------------------------------
@@ -335,15 +349,15 @@ pub fn prog_count(n: u32, pad: u32) -> Program {
     a.mov_l_imm(0, 0);
     a.mov_l_imm(1, 0x12345);
     a.mov_l_imm(6, n);
+    for _ in 0..pad {
+        a.mov_b_rr(8, 8); // shifts the phase of all later totals by 24 states each
+    }
     a.label("loop");
     a.mov_w_imm(2, 0x1234);
     a.mulxu_w(1, 2); // ER2 = R2 * R1
     a.add_l_rr(2, 0);
     a.dec_l1(6);
     a.bcc8(6, "loop");
-    for _ in 0..pad {
-        a.mov_b_rr(8, 8);
-    }
     epilogue(&mut a);
     finish("count", a, "")
 }
@@ -586,20 +600,44 @@ pub fn run_run_program(args: &Args) -> Result<()> {
         (prog_timer(150, 200, 0x49), 200_000, false),      // CMIEA, clear on A, clock/8: a match every 1600 states
         (prog_timer(120, 40, 0x6a), 200_000, false),       // CMIEA+OVIE, clear on A, clock/64
         (prog_count(8_800, 1), 200_000, true),             // just past the first sync threshold
+        (prog_count(26_500, 3), 400_000, true),            // three thresholds (sync drift shows from the second one on)
     ] };
     if thorough && !c15 {
-        progs.push((prog_count(26_500, 3), 400_000, true)); // three thresholds
+        progs.push((prog_count(44_100, 5), 600_000, true)); // five thresholds
         progs.push((prog_timer(9000, 200, 0x4b), 400_000, true)); // clock/8192, long
         progs.push((prog_count(17_700, 2), 300_000, true));
         progs.push((prog_io(400, &text, ""), 100_000, false));
         progs.push((prog_timer(1500, 200, 0x49), 200_000, false));
+    }
+    // Input selection for the multi-threshold run (no expected value involved): the padding is chosen, by
+    // measuring silent runs, so that an instruction boundary falls into the window just above the second
+    // threshold that is as wide as the overshoot at the first one - the place where an implementation that
+    // counts "states since the last sync" instead of multiples of the total would announce late.
+    if !c15 {
+        let mut best: Option<u32> = None;
+        for pad in 0..24u32 {
+            let p = prog_count(26_500, pad);
+            let r = run_program(&p, &elf_path, None, vec![], 400_000, 0, &mut rng, 0)?;
+            let o1 = r.sums.iter().find(|s| **s >= 2_000_000).map(|s| *s - 2_000_000).unwrap_or(0);
+            if o1 > 0 && r.sums.iter().any(|s| *s >= 4_000_000 && *s < 4_000_000 + o1) {
+                best = Some(pad);
+                break;
+            }
+        }
+        if let Some(pad) = best {
+            for e in progs.iter_mut() {
+                if e.2 && e.0.image.len() == prog_count(26_500, 3).image.len() {
+                    *e = (prog_count(26_500, pad), 400_000, true);
+                }
+            }
+        }
     }
     let mut total_events = 0u64;
     let mut nprog = 0;
     let busy_flag = std::sync::Arc::new(std::sync::atomic::AtomicBool::new(false));
     for (pi, (p, max_iters, lite)) in progs.iter().enumerate() {
         let log = format!("{}/thr_{}_{:02}.ndjson", outdir, if *lite { "lite" } else { "run" }, pi);
-        let s1 = run_program(p, &elf_path, Some(&log), vec![], *max_iters, 0, &mut rng, 0)?;
+        let s1 = run_program_x(p, &elf_path, Some(&log), vec![], *max_iters, 0, &mut rng, 0, *lite)?;
         total_events += s1.events;
         nprog += 1;
         if c15 {
